@@ -363,8 +363,7 @@ def run(ctx, be=None):
                          'function | inplace=True | TreeNeuron method (both inplace values) | on a NeuronList of two (per-neuron source); connectors on '
                          'every stream; a sample of the stream re-run under the igraph and networkx back-ends; non-trivial when ≥ 3 nodes')
     ctx.notes.append('a disagreement under navis-fastcore with a mask is attributed to the two open mask findings only when navis\' result equals '
-                     'the fastcore variant of the model (twigDeleteFC) round by round; exact=True + mask only when it equals the as-written variant '
-                     '(exactPruneAW); from_root=False under fastcore only when the determined wrong start reproduces the result')
+                     'the fastcore variant of the model (twigDeleteFC) round by round')
     for kind, case in gen_cases(ctx):
         ctx.case(dict(case, kind=kind), nontrivial=len(case['rows']) >= 3)
         m = case['meta']
